@@ -1979,11 +1979,11 @@ def read_until_prompt(timeout=20.0):
 read_until_prompt()
 out = []
 for entry in session:
-    texts = []; prompt = "none"
+    texts = []; prompt = "none"; prompts = []
     for line in entry["lines"]:
         os.write(fd, line.encode() + b"\r")
         t, prompt = read_until_prompt()
-        texts.append(t)
+        texts.append(t); prompts.append(prompt)
     # keep what the REPL printed (results and errors), drop the echoed input and the prompts
     printed = []
     for t in texts:
@@ -1991,7 +1991,7 @@ for entry in session:
             l = l.strip()
             if l and not l.startswith(PROMPTS) :
                 printed.append(l)
-    out.append({"id": entry["id"], "printed": printed, "prompt": prompt})
+    out.append({"id": entry["id"], "printed": printed, "prompt": prompt, "prompts": prompts})
 try:
     os.write(fd, b"\x04"); time.sleep(0.1); os.close(fd)
 except OSError: pass
@@ -2010,6 +2010,9 @@ struct ReplEntry {
     /// the entry's output is compared between the two sessions
     compare: bool,
     tag: String,
+    /// per typed line: the token for the model (`Model/Repl.lean`, driver request `repl`)
+    #[serde(default)]
+    model: Vec<String>,
 }
 
 fn gen_repl_session(rng: &mut Rng) -> Vec<ReplEntry> {
@@ -2018,7 +2021,7 @@ fn gen_repl_session(rng: &mut Rng) -> Vec<ReplEntry> {
     let n = 6 + rng.below(7);
     for id in 0..n {
         let k = id + 1;
-        let same = |lines: Vec<String>, tag: &str| ReplEntry { id, ref_lines: Some(lines.clone()), lines, compare: true, tag: tag.into() };
+        let same = |lines: Vec<String>, tag: &str| ReplEntry { id, ref_lines: Some(lines.clone()), lines, compare: true, tag: tag.into(), model: vec![] };
         let e = match rng.weighted(&[3, 3, 2, 5, 2, 1, if vars.is_empty() { 0 } else { 5 }]) {
             0 => {
                 vars.push(format!("x{k}"));
@@ -2030,6 +2033,7 @@ fn gen_repl_session(rng: &mut Rng) -> Vec<ReplEntry> {
                 ref_lines: None,
                 compare: false,
                 tag: "single-runtime-error".into(),
+                model: vec![],
             },
             2 => {
                 vars.push(format!("y{k}"));
@@ -2045,6 +2049,7 @@ fn gen_repl_session(rng: &mut Rng) -> Vec<ReplEntry> {
                     ref_lines: Some(vec![format!("e{k} = {k}00")]),
                     compare: false,
                     tag: "multi-runtime-error".into(),
+                    model: vec![],
                 }
             }
             4 => ReplEntry {
@@ -2053,8 +2058,9 @@ fn gen_repl_session(rng: &mut Rng) -> Vec<ReplEntry> {
                 ref_lines: None,
                 compare: false,
                 tag: "multi-compile-error".into(),
+                model: vec![],
             },
-            5 => ReplEntry { id, lines: vec!["x = )".into(), String::new()], ref_lines: None, compare: false, tag: "compile-error-after-continuation".into() },
+            5 => ReplEntry { id, lines: vec!["x = )".into(), String::new()], ref_lines: None, compare: false, tag: "compile-error-after-continuation".into(), model: vec![] },
             _ => {
                 let v = rng.pick(&vars).clone();
                 same(vec![format!("{v} + 41")], "probe")
@@ -2065,10 +2071,22 @@ fn gen_repl_session(rng: &mut Rng) -> Vec<ReplEntry> {
     // always end with probes of everything defined
     let mut id = es.len();
     for v in vars.iter().take(3) {
-        es.push(ReplEntry { id, lines: vec![format!("{v} + 41")], ref_lines: Some(vec![format!("{v} + 41")]), compare: true, tag: "probe".into() });
+        es.push(ReplEntry { id, lines: vec![format!("{v} + 41")], ref_lines: Some(vec![format!("{v} + 41")]), compare: true, tag: "probe".into(), model: vec![] });
         id += 1;
     }
-    es.push(ReplEntry { id, lines: vec!["1 + 1".into()], ref_lines: Some(vec!["1 + 1".into()]), compare: true, tag: "probe".into() });
+    es.push(ReplEntry { id, lines: vec!["1 + 1".into()], ref_lines: Some(vec!["1 + 1".into()]), compare: true, tag: "probe".into(), model: vec![] });
+    for e in es.iter_mut() {
+        let toks: &[&str] = match e.tag.as_str() {
+            "single-ok" | "probe" => &["l0:ok:0"],
+            "single-runtime-error" => &["l0:err:0"],
+            "multi-ok" => &["l0:ind:0", "l2:ok:0", "l2:ok:0", "b2:ok:0"],
+            "multi-runtime-error" => &["l0:ind:0", "l2:ok:0", "l2:ok:0", "b2:err:0"],
+            "multi-compile-error" => &["l0:ind:0", "l2:ind:1", "b2:ind:0"],
+            "compile-error-after-continuation" => &["l0:ind:0", "b2:ind:0"],
+            _ => &[],
+        };
+        e.model = toks.iter().map(|t| t.to_string()).collect();
+    }
     es
 }
 
@@ -2115,7 +2133,7 @@ fn run_repl_session(bin: &Path, scratch: &Path, entries: &[(usize, Vec<String>)]
 }
 
 /// returns the first difference (entry id, live, reference)
-fn check_repl_session(bin: &Path, scratch: &Path, es: &[ReplEntry]) -> Result<Option<(usize, Value, Value)>, String> {
+fn check_repl_session(bin: &Path, scratch: &Path, es: &[ReplEntry], drv: &mut Driver) -> Result<Option<(usize, Value, Value)>, String> {
     let live: Vec<(usize, Vec<String>)> = es.iter().map(|e| (e.id, e.lines.clone())).collect();
     let refs: Vec<(usize, Vec<String>)> = es.iter().filter_map(|e| e.ref_lines.clone().map(|l| (e.id, l))).collect();
     let lo = run_repl_session(bin, scratch, &live)?;
@@ -2125,6 +2143,28 @@ fn check_repl_session(bin: &Path, scratch: &Path, es: &[ReplEntry]) -> Result<Op
         let r = ro.iter().find(|v| v["id"] == json!(e.id)).cloned().unwrap_or(Value::Null);
         if l != r {
             return Ok(Some((e.id, l, r)));
+        }
+    }
+    // (K) the prompt after every typed line as the model of `Repl::on_line` predicts it
+    if es.iter().all(|e| e.model.len() == e.lines.len()) {
+        let toks: Vec<String> = es.iter().flat_map(|e| e.model.iter().cloned()).collect();
+        let resp = drv.ask(&format!("repl {}", toks.join(" ")));
+        let pred: Vec<&str> = resp.split(' ').collect();
+        let mut i = 0;
+        for e in es {
+            let l = lo.iter().find(|v| v["id"] == json!(e.id)).cloned().unwrap_or(Value::Null);
+            for j in 0..e.lines.len() {
+                let seen = l["prompts"][j].as_str().unwrap_or("none");
+                let want = match pred.get(i) {
+                    Some(&"m") => "main",
+                    Some(&"c") => "continued",
+                    _ => "?",
+                };
+                i += 1;
+                if seen != want {
+                    return Ok(Some((e.id, l.clone(), json!({"model_prompt_after_line": j, "model": want, "model_request": toks.join(" "), "model_response": resp, "name": "K:C07:Model.Repl.onLine"}))));
+                }
+            }
         }
     }
     // the live session must be back at the main prompt after every complete entry
@@ -2146,7 +2186,7 @@ fn repl_checks(cx: &mut Ctx, rng: &mut Rng, scratch: &Path, n_sessions: usize) {
             cx.rep.case(&format!("repl:{si}:{}:{:?}", e.id, e.lines), true);
             cx.rep.bump(&format!("repl-entry:{}", e.tag));
         }
-        match check_repl_session(&bin, scratch, &es) {
+        match check_repl_session(&bin, scratch, &es, &mut cx.drv) {
             Err(e) => {
                 cx.rep.note(format!("REPL session {si} could not be driven: {e}"));
                 return;
@@ -2162,7 +2202,7 @@ fn repl_checks(cx: &mut Ctx, rng: &mut Rng, scratch: &Path, n_sessions: usize) {
                     while i < cur.len() {
                         let mut cand = cur.clone();
                         cand.remove(i);
-                        if matches!(check_repl_session(&bin, scratch, &cand), Ok(Some(_))) {
+                        if matches!(check_repl_session(&bin, scratch, &cand, &mut cx.drv), Ok(Some(_))) {
                             cur = cand;
                             progress = true;
                         } else {
@@ -2170,7 +2210,7 @@ fn repl_checks(cx: &mut Ctx, rng: &mut Rng, scratch: &Path, n_sessions: usize) {
                         }
                     }
                 }
-                let fin = check_repl_session(&bin, scratch, &cur).ok().flatten();
+                let fin = check_repl_session(&bin, scratch, &cur, &mut cx.drv).ok().flatten();
                 cx.d_fail += 1;
                 cx.rep.violation(
                     "D",
